@@ -242,6 +242,90 @@ func runC17(r *Run) {
 		bindMapByValueRule(r, idemPkg, 1)
 	})
 
+	r.rule("R15", "what is filtered is what is stored: the map the handler fills behind the keep-set lookup (the filtered headers) is the one that reaches response.Headers — it is the Headers field itself or flows into the stored response; a filtered map that nothing reads (a `:=` inside the filter branch shadows the variable the response is built from) means every duplicate is answered with all headers of the first execution, its Set-Cookie included (E3: the filtered value reaches the record)", func() {
+		c := get()
+		n := 0
+		for _, in := range instrsWhere(c.h, func(in ssa.Instruction) bool { _, ok := in.(*ssa.MapUpdate); return ok }) {
+			mu := in.(*ssa.MapUpdate)
+			mt, ok := mu.Map.Type().Underlying().(*types.Map)
+			if !ok {
+				continue
+			}
+			if _, isSl := mt.Elem().Underlying().(*types.Slice); !isSl {
+				continue
+			}
+			// behind a lookup in the keep set?
+			behind := false
+			for _, br := range branchesIn(c.h) {
+				ex, ok := stripValue(br.Info.Root).(*ssa.Extract)
+				if !ok || ex.Index != 1 {
+					continue
+				}
+				if lk, ok := ex.Tuple.(*ssa.Lookup); ok && lk.CommaOk {
+					if sl, ok := br.truthSlot(true); ok && (br.If.Block().Succs[sl] == mu.Block() || dom(br.If.Block().Succs[sl], mu.Block())) {
+						behind = true
+					}
+				}
+			}
+			if !behind {
+				continue
+			}
+			n++
+			// the filled map is the Headers field, or reaches a store into it / the response literal
+			reaches := false
+			if ld, ok := stripValue(mu.Map).(*ssa.UnOp); ok && ld.Op == token.MUL {
+				if fa, ok := ld.X.(*ssa.FieldAddr); ok {
+					if fv := fieldOfValue(fa); fv != nil && fv.Name() == "Headers" {
+						reaches = true
+					}
+				}
+			}
+			if !reaches {
+				seen := map[ssa.Value]bool{}
+				var walk func(v ssa.Value)
+				walk = func(v ssa.Value) {
+					if seen[v] || v.Referrers() == nil {
+						return
+					}
+					seen[v] = true
+					for _, u := range *v.Referrers() {
+						switch x := u.(type) {
+						case *ssa.Store:
+							if x.Val == v {
+								if fa, ok := x.Addr.(*ssa.FieldAddr); ok {
+									if fv := fieldOfValue(fa); fv != nil && fv.Name() == "Headers" {
+										reaches = true
+									}
+								}
+								if al, ok := x.Addr.(*ssa.Alloc); ok {
+									// a local variable: follow its loads
+									for _, lu := range *al.Referrers() {
+										if ld, ok := lu.(*ssa.UnOp); ok && ld.Op == token.MUL {
+											walk(ld)
+										}
+									}
+								}
+							}
+						case *ssa.Phi:
+							walk(x)
+						case *ssa.MakeInterface:
+							walk(x)
+						case *ssa.Return:
+							// filled in a helper and handed back: followed at the helper's calls
+							for _, cs := range staticCallersOf(x.Parent()) {
+								walk(cs)
+							}
+						}
+					}
+				}
+				walk(mu.Map)
+			}
+			r.check(reaches, fmt.Sprintf("handler:filtered-headers#%d:reach-the-record", n), r.pos(in), "the filtered map is what response.Headers holds",
+				"the map filled with the kept headers never reaches response.Headers (it is a new variable inside the filter branch): with KeepResponseHeaders configured every duplicate is answered with all headers of the first execution — the first caller's Set-Cookie and per-request headers are replayed")
+		}
+		r.atLeast("filtered-header writes behind the keep-set lookup", n, 1)
+	})
+
 	r.rule("R14", "`safe` is RFC 9110's list: the default Next skips the middleware exactly for what fiber.IsMethodSafe calls safe (R7), and IsMethodSafe answers true only behind a comparison of the method with GET, HEAD, OPTIONS or TRACE — all four and nothing else (table agreement with RFC 9110 §9.2.1; with TRACE missing a TRACE request carrying the key is answered with the stored POST response, or occupies the key so that the POST never runs)", func() {
 		f := r.Fn("", "IsMethodSafe")
 		r.need(len(f.Params) == 1, "IsMethodSafe(m string)")
